@@ -43,7 +43,10 @@ Inductive opsyn :=
 | SVecList (n : nat) (rt et f : Z)             (* { Vt.<T>, Vt2.<T>, ... }: n consecutive registers (modulo 32) of one arrangement; field = first *)
 | SMemPostReg (frn frm : Z)                    (* [Xn|SP], Xm   (post-index by register, Xm = x0..x30) *)
 | SMemPostImm (frn imm : Z)
-| SVShift (lft : bool) (esize fimmh fimmb : Z).   (* SIMD shift by immediate: immh:immb = esize + n (left, 0 <= n < esize) or 2*esize - n (right, 1 <= n <= esize) *)
+| SVShift (lft : bool) (esize fimmh fimmb : Z)
+| SSysOp (fop1 fcrm fop2 crn : Z)              (* AT/DC/IC/TLBI operation as AsmJit's 14-bit id op1:CRn:CRm:op2 (CRn implied by the instruction) *)
+| SGpPair (x : bool) (f : Z).                  (* CASP register pair: <Rs>, <R(s+1)> with s even, 0..30 (the partner of R30 is ZR); field = s *)
+(* SVShift: SIMD shift by immediate: immh:immb = esize + n (left, 0 <= n < esize) or 2*esize - n (right, 1 <= n <= esize) *)
 (* SMemPostImm: [Xn|SP], #imm (post-index by the transfer size; the immediate is implied by the form) *)
 (* SVecElem: Vm.<T>[#idx]: lane < lanes, register number < 2^w (w = 4 for H lanes of by-element forms) *)
 (* SSysReg: system register id in AsmJit's 16-bit form 1:o0:op1:CRn:CRm:op2 *)
@@ -173,6 +176,11 @@ Definition bind1 (s : opsyn) (ops : list operand) : option (env * list operand) 
       then Some ([(frn, b); (frm, i)], r) else None
   | SMemPostImm frn imm, OMem b None _ _ off m :: r =>
       if (0 <=? b) && (b <=? 31) && (off =? imm) && (m =? 2) then Some ([(frn, b)], r) else None
+  | SSysOp fop1 fcrm fop2 crn, OImm _ v :: r =>
+      if (0 <=? v) && (v <? 16384) && ((v / 128) mod 16 =? crn) then Some ([(fop1, v / 2048); (fcrm, (v / 8) mod 16); (fop2, v mod 8)], r) else None
+  | SGpPair x f, OGp x1 id1 :: OGp x2 id2 :: r =>
+      if Bool.eqb x x1 && Bool.eqb x x2 && (0 <=? id1) && (id1 <=? 30) && Z.even id1 && (id2 =? (if id1 =? 30 then 63 else id1 + 1))
+      then Some ([(f, id1)], r) else None
   | SVShift lft esize fimmh fimmb, OImm _ n :: r =>
       if (if lft then (0 <=? n) && (n <? esize) else (1 <=? n) && (n <=? esize)) then
         let v := if lft then esize + n else 2 * esize - n in
@@ -241,9 +249,13 @@ Definition syn_inv (s : opsyn) : bool :=
   match s with
   | SGp _ _ _ | SImmU _ _ _ | SImmS _ _ | SCond _ _ | SRel _ _ _ | SMemBase _ | SMemOff _ _ _ _ _ _ | SMemLit _ _ | SShift _ _ _ _
   | SVec _ _ _ _ | SVecElem _ _ _ _ _ _
-  | SGpDup _ _ _ _ | SImmLt _ _ _ | SSysReg _ | SImmConst _ | SMemPostImm _ _ | SMemPostReg _ _ | SMemIdx _ _ _ _ _ | SMemPair _ _ _ _ _ _ _ => true
-  | _ => false
+  | SGpDup _ _ _ _ | SImmLt _ _ _ | SSysReg _ | SImmConst _ | SMemPostImm _ _ | SMemPostReg _ _ | SMemIdx _ _ _ _ _ | SMemPair _ _ _ _ _ _ _
+  | SVShift _ _ _ _ | SMovW _ _ _ | SBitfield _ _ _ _ | SAddImm _ _ | SExtReg _ _ _ _ | SLogImm _ _ | SVecList _ _ _ _ | SGpPair _ _ | SSysOp _ _ _ _ => true
   end.
+
+(* the n registers of a list starting at id *)
+Fixpoint veclist_ops (n : nat) (rt et id : Z) : list operand :=
+  match n with O => [] | S k => OVec rt et (-1) id :: veclist_ops k rt et ((id + 1) mod 32) end.
 
 Definition unbind1 (s : opsyn) (g : Z -> Z) : list operand :=
   match s with
@@ -270,7 +282,26 @@ Definition unbind1 (s : opsyn) (g : Z -> Z) : list operand :=
             (if opt =? 2 then 8 else if opt =? 3 then 0 else if opt =? 6 then 12 else 13) (if g fs =? 0 then 0 else amount) 0 0]
   | SMemPair frn foff w scale fnpost fwb _ =>
       [OMem (g frn) None 0 0 (sext (g foff) w * scale) (if g fwb =? 0 then 0 else if g fnpost =? 0 then 2 else 1)]
-  | _ => []
+  | SVShift lft esize fimmh fimmb =>
+      let v := g fimmh * 8 + g fimmb in [OImm 0 (if lft then v - esize else 2 * esize - v)]
+  | SMovW _ fimm fhw => [OImm 0 (g fimm); OImm 0 (g fhw * 16)]
+  | SBitfield kind size fimmr fimms =>
+      if kind =? 2 then [OImm 0 (size - 1 - g fimms)]
+      else if kind =? 0 then [OImm 0 (g fimmr); OImm 0 (g fimms - g fimmr + 1)]
+      else [OImm 0 ((size - g fimmr) mod size); OImm 0 (g fimms + 1)]
+  | SAddImm fimm fn => [OImm 0 (g fimm); OImm 0 (12 * g fn)]
+  | SExtReg _ frm fopt fn =>
+      let opt := g fopt in
+      [OGp ((opt =? 3) || (opt =? 7)) (if g frm =? 31 then 63 else g frm); OImm (opt + 6) (g fn)]
+  | SLogImm x f =>
+      let F := g f in
+      match decode_bit_masks (if x then 64 else 32) (F / 4096) (F mod 64) ((F / 64) mod 64) with
+      | Some v => [OImm 0 v]
+      | None => []
+      end
+  | SVecList n rt et f => veclist_ops n rt et (g f)
+  | SGpPair x f => [OGp x (g f); OGp x (if g f =? 30 then 63 else g f + 1)]
+  | SSysOp fop1 fcrm fop2 crn => [OImm 0 (g fop1 * 2048 + crn * 128 + g fcrm * 8 + g fop2)]
   end.
 
 (* canonical form of the operands a syntax element consumed: don't-care parts (predicate of a plain immediate, index fields of
@@ -288,6 +319,30 @@ Definition canon1 (s : opsyn) (ops : list operand) : option (list operand * list
   | (SImmLt _ _ _ | SSysReg _ | SImmConst _), OImm _ v :: r => Some ([OImm 0 v], r)
   | SMemPostImm _ _, OMem b None _ _ off m :: r => Some ([OMem b None 0 0 off m], r)
   | SMemPair _ _ _ _ _ _ nf, OMem b None _ _ off m :: r => Some ([OMem b None 0 0 off (if nf && (off =? 0) then 0 else m)], r)
+  | SVShift _ _ _ _, OImm _ n :: r => Some ([OImm 0 n], r)
+  (* MOVZ/MOVN/MOVK: the shift is made explicit *)
+  | SMovW _ _ _, OImm _ v :: OImm _ s :: r => Some ([OImm 0 v; OImm 0 s], r)
+  | SMovW _ _ _, OImm _ v :: r => Some ([OImm 0 v; OImm 0 0], r)
+  | SBitfield kind _ _ _, OImm _ a :: r =>
+      if kind =? 2 then Some ([OImm 0 a], r)
+      else match r with OImm _ w :: r' => Some ([OImm 0 a; OImm 0 w], r') | _ => None end
+  (* ADD/SUB immediate: imm12 and the shift made explicit (0x00XXX000 is XXX, lsl #12) *)
+  | SAddImm _ _, OImm _ v :: r =>
+      let '(s, r') := match r with OImm _ s :: r' => (s, r') | _ => (0, r) end in
+      if (0 <=? v) && (v <=? 4095) then Some ([OImm 0 v; OImm 0 s], r') else Some ([OImm 0 (v / 4096); OImm 0 12], r')
+  (* extended register: the extend kind made explicit (LSL stands for UXTX / UXTW), amount 0 when omitted *)
+  | SExtReg x _ _ _, OGp xm idm :: r =>
+      match r with
+      | [] => Some ([OGp xm idm; OImm (if x then 9 else 8) 0], [])
+      | [OImm p v] => Some ([OGp xm idm; OImm (if p =? 0 then (if x then 9 else 8) else p) v], [])
+      | _ => None
+      end
+  (* bitmask immediate: the unsigned value of the register width *)
+  | SLogImm x _, OImm _ v :: r => Some ([OImm 0 (v mod 2 ^ (if x then 64 else 32))], r)
+  | SVecList n rt et _, OVec _ _ _ id :: _ =>
+      match veclist n rt et id ops with Some r => Some (veclist_ops n rt et id, r) | None => None end
+  | SGpPair _ _, o1 :: o2 :: r => Some ([o1; o2], r)
+  | SSysOp _ _ _ _, OImm _ v :: r => Some ([OImm 0 v], r)
   | _, _ => None
   end.
 
@@ -346,6 +401,8 @@ Definition syn_fields (s : opsyn) : list (Z * Z) :=
   | SMemPostReg frn frm => [(frn, 5); (frm, 5)]
   | SMemPostImm frn _ => [(frn, 5)]
   | SVShift _ _ fimmh fimmb => [(fimmh, 4); (fimmb, 3)]
+  | SGpPair _ f => [(f, 5)]
+  | SSysOp fop1 fcrm fop2 _ => [(fop1, 3); (fcrm, 4); (fop2, 3)]
   end.
 
 Definition syn_wf (s : opsyn) : bool :=
@@ -359,6 +416,7 @@ Definition syn_wf (s : opsyn) : bool :=
   | SMemLit _ w => 1 <=? w
   | SImmLt _ w lim => (0 <=? w) && (w <=? 32) && (0 <=? lim) && (lim <=? 2 ^ w)
   | SBitfield kind size _ _ => (0 <=? kind) && (kind <=? 2) && ((size =? 32) || (size =? 64))
+  | SSysOp _ _ _ crn => (0 <=? crn) && (crn <? 16)
   | SVShift _ esize _ _ => (esize =? 8) || (esize =? 16) || (esize =? 32) || (esize =? 64)
   | SVec _ _ _ w => (0 <=? w) && (w <=? 5)
   | SVecElem _ _ w _ widx lanes => (0 <=? w) && (w <=? 5) && (0 <=? widx) && (widx <=? 4) && (0 <=? lanes) && (lanes <=? 2 ^ widx)
@@ -376,3 +434,12 @@ Definition row_wf (r : row) : bool :=
   && forallb (fun p => existsb (pair_eqb p) (r_fields r)) sf
   && forallb (fun p => existsb (pair_eqb p) sf) (r_fields r)
   && (length sf =? length (r_fields r))%nat && nodupb (map fst sf).
+
+(* ---- opcode constants of the assembler's EncodingData tables vs the database rows ---- *)
+(* entry = (instruction id, opcode word of the table row, class-variable bits, ids of the database rows of that instruction) *)
+Definition table_entry_ok (db : list row) (e : Z * Z * Z * list Z) : bool :=
+  let '(_, w, var, rids) := e in
+  forallb (fun rid => match find (fun r => r_id r =? rid) db with
+                      | Some r => tword_agrees (r_tmpl r) w var
+                      | None => false
+                      end) rids.
